@@ -398,6 +398,14 @@ def check_message(msg, p, hv):
         pdu = PDU()
         x.encode(pdu)
         got = bytes(pdu.pduData)
+        # the same message object sent again (an announcement repeated on every port): same octets
+        x2 = N.NPDU()
+        m.encode(x2)
+        pdu2 = PDU()
+        x2.encode(pdu2)
+        if bytes(pdu2.pduData) != got:
+            fails.append(("msg:%s:second-encoding-of-the-same-message-differs" % name,
+                          dict(where, first=short(got), again=short(bytes(pdu2.pduData)))))
     except Exception as err:
         fails.append(("msg:%s:encode-raises-%s" % (name, type(err).__name__), dict(where, error=repr(err))))
         got = None
